@@ -1,2 +1,12 @@
 import TransportVerif.Props.C18
-#print axioms TV.Props.C18.placeholder
+#print axioms TV.Props.C18.bridge_step_refines
+#print axioms TV.Props.C18.bridge_refines_script
+#print axioms TV.Props.C18.conservation
+#print axioms TV.Props.C18.no_dup
+#print axioms TV.Props.C18.no_invention
+#print axioms TV.Props.C18.fifo_when_unimpaired
+#print axioms TV.Props.C18.reorder_block_reversed
+#print axioms TV.Props.C18.deliver_is_head_cut
+#print axioms TV.Props.C18.dpipe_step_refines
+#print axioms TV.Props.C18.dpipe_is_message_fifo
+#print axioms TV.Props.C18.dpipe_close_is_local
